@@ -5,6 +5,7 @@ package main
 // (E2, sibling cross-check).
 
 import (
+	"go/token"
 	"go/types"
 	"sort"
 	"strings"
@@ -67,6 +68,16 @@ func propC18(w *World, r *Report, tier string) {
 		return f.Name() == "MarshalBinary" || strings.HasPrefix(f.Name(), "Encode") || f.Name() == "UePolDeliverySerEncode"
 	})
 	r.Expect("seq.len-covers", 3)
+	for _, pr := range [][2]string{
+		{"Instruction.MarshalBinary", "parseInstruction"},
+		{"UEPolicyPart.MarshalBinary", "parseUEPolicyPart"},
+		{"UEPolicySectionManagementSubList.MarshalBinary", "parseUEPlcSublist"},
+		{"UEPolicySectionManagementSubResult.MarshalBinary", "parseUEPlcSubResult"},
+		{"UEPolicySectionManagementList.MarshalBinary", "UEPolicySectionManagementList.UnmarshalBinary"},
+		{"UEPolicySectionManagementResult.MarshalBinary", "UEPolicySectionManagementResult.UnmarshalBinary"},
+	} {
+		seqDual(w, r, "uePolicyContainer", pr[0], pr[1])
+	}
 	lenFromContent(w, r, "uePolicyContainer", func(name string) bool { return strings.Contains(name, "MarshalBinary") || strings.HasPrefix(name, "Encode") }, []string{
 		"UePolicyContainer_Instruction.go", "UePolicyContainer_UEPolicyParts.go", "UePolicyContainer_UEPolicySectionManagementSubList.go",
 		"UePolicyContainer_UEPolicySectionManagementSubResult.go", "UePolicyContainer_UEPolicySectionManagementList.go", "UePolicyContainer_UEPolicySectionManagementResult.go",
@@ -87,7 +98,8 @@ func serialiserRuns(w *World, r *Report, rel string, sel func(*types.Func) bool)
 			var args []AVal
 			for i, prm := range fn.Params {
 				if i == 0 && fn.Signature.Recv() != nil {
-					args = append(args, nonNilPtrArg(sa, fr, st, prm.Type(), prm.Name()))
+					// element carriers with (Len, Buffer): well-formedness premise len(Buffer) == Len
+					args = append(args, ieArg(sa, fr, st, prm.Type(), prm.Name()))
 				} else if isReaderType(prm.Type()) {
 					a := nonNilPtrArg(sa, fr, st, prm.Type(), prm.Name())
 					args = append(args, a)
@@ -129,6 +141,86 @@ func serialiserRuns(w *World, r *Report, rel string, sel func(*types.Func) bool)
 			}
 		} else {
 			r.Fail("seq.len-covers", o.Fn, o.What, o.Pos, o.Detail, nil)
+		}
+	}
+}
+
+// fieldSeq lists, in program order, the struct fields a function serialises (binary.Write data)
+// or parses (binary.Read targets). Only named fields are listed.
+func fieldSeq(fn *ssa.Function, write bool) []string {
+	var out []string
+	if fn == nil {
+		return nil
+	}
+	fieldOf := func(v ssa.Value) string {
+		for depth := 0; depth < 8; depth++ {
+			switch x := v.(type) {
+			case *ssa.MakeInterface:
+				v = x.X
+			case *ssa.Convert:
+				v = x.X
+			case *ssa.ChangeType:
+				v = x.X
+			case *ssa.UnOp:
+				if x.Op != token.MUL {
+					return ""
+				}
+				v = x.X
+			case *ssa.Slice:
+				v = x.X
+			case *ssa.FieldAddr:
+				st := x.X.Type().Underlying().(*types.Pointer).Elem().Underlying().(*types.Struct)
+				return st.Field(x.Field).Name()
+			case *ssa.Field:
+				st := x.X.Type().Underlying().(*types.Struct)
+				return st.Field(x.Field).Name()
+			default:
+				return ""
+			}
+		}
+		return ""
+	}
+	for _, b := range fn.Blocks {
+		for _, ins := range b.Instrs {
+			c, ok := ins.(*ssa.Call)
+			if !ok || c.Call.StaticCallee() == nil {
+				continue
+			}
+			switch c.Call.StaticCallee().String() {
+			case "encoding/binary.Write":
+				if write {
+					if f := fieldOf(c.Call.Args[2]); f != "" {
+						out = append(out, f)
+					}
+				}
+			case "encoding/binary.Read":
+				if !write {
+					if f := fieldOf(c.Call.Args[2]); f != "" {
+						out = append(out, f)
+					}
+				}
+			}
+		}
+	}
+	return out
+}
+
+// seqDual: the named fields written by the serialiser are exactly the named fields read by the
+// parser, in the same order.
+func seqDual(w *World, r *Report, rel, ser, par string) {
+	fs, fp := w.LookupFunc(rel, ser), w.LookupFunc(rel, par)
+	if fs == nil || fp == nil {
+		r.Fail("anchor", rel+"."+ser+" / "+par, "missing", token.NoPos, "serialiser/parser pair not found", nil)
+		return
+	}
+	r.Site("seq.dual")
+	a, b := fieldSeq(w.SSAFunc(fs), true), fieldSeq(w.SSAFunc(fp), false)
+	if strings.Join(a, ",") != strings.Join(b, ",") || len(a) == 0 {
+		r.Fail("seq.dual", FuncName(fs), "vs "+par, fs.Pos(), "serialiser writes fields ["+strings.Join(a, ", ")+"] but the parser reads ["+strings.Join(b, ", ")+"]", nil)
+	} else {
+		r.OK("seq.dual")
+		if len(r.Samples) < 18 {
+			r.Sample(map[string]any{"rule": "seq.dual", "serialiser": FuncName(fs), "parser": FuncName(fp), "fields": a})
 		}
 	}
 }
